@@ -356,8 +356,8 @@ def numDelim (input : Bytes) (n : Nat) : Option Nat :=
   | none => some n
 
 /-- `parseNumber` from "e or E followed by an optional - or + and 1 or more digits" on; `s` is the
-unconsumed input and `n` the count so far.  As in the Go code, *no digit is required* after the
-exponent marker and sign (DESIGN.md finding 4). -/
+unconsumed input and `n` the count so far.  At least one digit is required after the exponent marker
+and sign (`if s[0] < '0' || '9' < s[0] { return 0, false }`, repo commit be83e9c). -/
 def numExp (input s : Bytes) (n : Nat) : Option Nat :=
   match s with
   | c0 :: c1 :: t =>                                   -- len(s) >= 2
@@ -365,14 +365,13 @@ def numExp (input s : Bytes) (n : Nat) : Option Nat :=
       if c1 = 0x2b#8 ∨ c1 = 0x2d#8 then                 -- '+' '-';  s = s[1:]; n++
         match t with
         | [] => none                                    -- if len(s) == 0 { return 0, false }
-        | _ :: _ => numDelim input (n + 2 + digitsLen t)
-      else numDelim input (n + 1 + digitsLen (c1 :: t))
+        | d :: _ => if isDigit d then numDelim input (n + 2 + digitsLen t) else none
+      else if isDigit c1 then numDelim input (n + 1 + digitsLen (c1 :: t)) else none
     else numDelim input n
   | _ => numDelim input n
 
-/-- `parseNumber` from ". followed by 1 or more digits" on.  The stage that follows (the exponent) is
-a parameter so that the same definition serves the current code (`numExp`) and the code with the
-proposed repair (`numExpFixed`). -/
+/-- `parseNumber` from ". followed by 1 or more digits" on.  The stage that follows (the exponent, `numExp`)
+is a parameter, which lets the lemmas about the stages be stated once for any exponent stage. -/
 def numFracG (expF : Bytes → Bytes → Nat → Option Nat) (input s : Bytes) (n : Nat) : Option Nat :=
   match s with
   | c0 :: c1 :: t =>
@@ -402,23 +401,6 @@ def parseNumberG (expF : Bytes → Bytes → Nat → Option Nat) (input : Bytes)
 /-- `parseNumber(input []byte) (int, bool)` -/
 def parseNumber (input : Bytes) : Option Nat := parseNumberG numExp input
 
-/-- the exponent stage with the proposed repair /verif/fixes/json-exponent-digits.diff applied:
-at least one digit after `e[+-]`. -/
-def numExpFixed (input s : Bytes) (n : Nat) : Option Nat :=
-  match s with
-  | c0 :: c1 :: t =>
-    if c0 = 0x65#8 ∨ c0 = 0x45#8 then
-      if c1 = 0x2b#8 ∨ c1 = 0x2d#8 then
-        match t with
-        | [] => none
-        | d :: _ => if isDigit d then numDelim input (n + 2 + digitsLen t) else none
-      else if isDigit c1 then numDelim input (n + 1 + digitsLen (c1 :: t)) else none
-    else numDelim input n
-  | _ => numDelim input n
-
-/-- `parseNumber` once the repair is applied -/
-def parseNumberFixed (input : Bytes) : Option Nat := parseNumberG numExpFixed input
-
 /-- `numberParts` -/
 structure NumberParts where
   neg : Bool
@@ -438,8 +420,8 @@ def partsExp (s : Bytes) : Option Bytes :=
       if c1 = 0x2b#8 ∨ c1 = 0x2d#8 then
         match t with
         | [] => none
-        | _ :: _ => some (c1 :: t.takeWhile isDigit)    -- exp[:1+digits]
-      else some ((c1 :: t).takeWhile isDigit)
+        | d :: _ => if isDigit d then some (c1 :: t.takeWhile isDigit) else none    -- exp[:1+digits]
+      else if isDigit c1 then some ((c1 :: t).takeWhile isDigit) else none
     else some []
   | _ => some []
 
@@ -499,7 +481,10 @@ def parseIntBits (bits : Nat) (s : Bytes) : Option Int :=
       else (if v < 2 ^ (bits - 1) then some (v : Int) else none)
     else none
 
-/-- `normalizeToIntString(n numberParts) (string, bool)` -/
+/-- `for lead < fracSize && n.frac[lead] == '0' { lead++ }` -/
+def leadZeros (s : Bytes) : Nat := (s.takeWhile (· == 0x30#8)).length
+
+/-- `normalizeToIntString(n numberParts) (string, bool)` (repo commit 265c3c0) -/
 def normalizeToIntString (n : NumberParts) : Option Bytes :=
   let intpSize := n.intp.length
   let fracSize := n.frac.length
@@ -512,8 +497,11 @@ def normalizeToIntString (n : NumberParts) : Option Bytes :=
       let sign : Bytes := if n.neg then [0x2d#8] else []
       if exp ≥ 0 then
         if (fracSize : Int) > exp then none
-        else if (intpSize : Int) + exp > 20 then none              -- maxDigits
-        else some (sign ++ (n.intp ++ (n.frac ++ List.replicate (exp.toNat - fracSize) 0x30#8)))
+        else
+          -- leading zeros of the fraction are not digits of the result when there is no integer part
+          let lead := if intpSize = 0 then leadZeros n.frac else 0
+          if (intpSize : Int) + exp - (lead : Int) > 20 then none   -- maxDigits
+          else some (sign ++ (n.intp ++ (n.frac.drop lead ++ List.replicate (exp.toNat - fracSize) 0x30#8)))
       else
         if fracSize > 0 then none
         else
@@ -722,8 +710,8 @@ def lexLit (k : Kind) (lit : Bytes) (boo : Bool) (inp : Bytes) : Except Err (Tok
   if matchWithDelim lit inp ≠ 0 then .ok ({ kind := k, raw := lit, boo := boo }, lit.length)
   else .error .syntax
 
-/-- the number case of `parseNext`; `pn` is `parseNumber` (a parameter so that the same definitions
-serve the current code and the code with the repair fixes/json-exponent-digits.diff) -/
+/-- the number case of `parseNext`; `pn` is `parseNumber` (a parameter of the lexer and of `Read`, so
+that the automaton lemmas need only know what `pn` accepts) -/
 def lexNumber (pn : Bytes → Option Nat) (inp : Bytes) : Except Err (Token × Nat) :=
   match pn inp with
   | some n => .ok ({ kind := .number, raw := inp.take n }, n)
@@ -849,9 +837,6 @@ def decodeAllG (pn : Bytes → Option Nat) (b : Bytes) : Except (Err × List Tok
   readAllG pn (b.length + 2) { inp := b }
 
 def decodeAll (b : Bytes) : Except (Err × List Token) (List Token) := decodeAllG parseNumber b
-
-/-- the decoder once the repair fixes/json-exponent-digits.diff is applied -/
-def decodeAllFixed (b : Bytes) : Except (Err × List Token) (List Token) := decodeAllG parseNumberFixed b
 
 /-! ## Part 2d — protojson/decode.go: integers -/
 
